@@ -5,7 +5,7 @@
 (* {a, b, universal, :not(a), :not(b), :not(universal)} joined by the four combinators.       *)
 (* One state = one document; the invariant Emit prints the whole match        *)
 (* relation for the pool so the harness can replay it into soupsieve.select.  *)
-EXTENDS CssDecl, TLC, Json, SequencesExt
+EXTENDS Ir, TLC, Json, SequencesExt
 CONSTANTS MaxNodes, MaxCompounds
 VARIABLE doc
 
@@ -39,4 +39,7 @@ Emit == PrintT(ToJson([doc |-> doc, res |-> Res]))
 
 \* design-level sanity: the container is never selected, results are elements
 OnlyElements == \A s \in 1..Len(Pool) : Rel1(s) \subseteq Elems(doc)
+\* T-AlgoEqDecl: the implementation-shaped matcher over the compiled IR agrees with the declarative semantics
+AlgoEqDecl == \A s \in 1..Len(Pool) : \A i \in Elems(doc) :
+                 AlgoMatches(doc, Env, <<Pool[s]>>, i) = Matches(doc, Env, <<Pool[s]>>, i)
 =============================================================================
